@@ -73,7 +73,14 @@ class P:
                     where.append("-%s=%s" % (flag[f], srcs["cli"]))
                 C += [flag[f], hx(srcs["cli"])]
         line = "options D %s E %s F %s C %s" % (" ".join(D), " ".join(E), " ".join(F), " ".join(C))
-        self.cases_json[line] = {"cmd": "options", "env": env, "file": ("\n".join(filelines) + "\n") if filelines else None, "args": args, "pre_args": pre}
+        text = ("\n".join(filelines) + "\n") if filelines else None
+        if text is not None and rng is not None and rng.random() < 0.3:
+            # an annotated configuration file: comment blocks of 5 kB / 70 kB before, between or after the settings (a file has no
+            # length limit; every key in it counts wherever it stands)
+            block = "".join("# %s\n" % ("vflow configuration - " * 3 + str(i)) for i in range(rng.choice([70, 1000])))
+            k = rng.randrange(len(filelines) + 1)
+            text = "\n".join(filelines[:k] + [block.rstrip("\n")] + filelines[k:]) + "\n"
+        self.cases_json[line] = {"cmd": "options", "env": env, "file": text, "args": args, "pre_args": pre}
         if rng is not None:
             # the configuration file named in each spelling the flag package accepts
             self.cases_json[line]["config_form"] = rng.choice(["-config F", "-config F", "-config=F", "--config F", "--config=F"])
